@@ -87,6 +87,7 @@ size_t shim_eav_size (void);
 const char *shim_backend (void);
 int  shim_has_extra (void);
 int  shim_has_ndebug (void);
+extern int g_sim_conv_style;             /* 0: libidn2's conversion; 1: all-ASCII names are returned unchanged (what an IDNA2003 library does) */
 extern unsigned g_sim_cov_new;            /* edges of the library reached for the first time since it was last zeroed */
 unsigned sim_cov_edges_hit (void); unsigned sim_cov_edges_total (void);
 int  shim_is_special_domain (const char *s, const char *e);
